@@ -311,15 +311,6 @@ def _tvl_op(self, arg, comparison, builtins=None):
     Default is the value specified by Qube.PREFER_BUILTIN_TYPES.
     """
 
-    # Return a Python bool if appropriate
-    if isinstance(comparison, bool):
-        if builtins is None:
-            builtins = Qube.PREFER_BUILTIN_TYPES
-        if builtins:
-            return comparison
-
-        comparison = Qube.BOOLEAN_CLASS(comparison)
-
     # Determine arg_mask, if any
     if isinstance(arg, Qube):
         arg_mask = arg._mask_
@@ -328,7 +319,18 @@ def _tvl_op(self, arg, comparison, builtins=None):
     else:
         arg_mask = False
 
-    comparison._set_mask_(Qube.or_(self._mask_, arg_mask))
+    new_mask = Qube.or_(self._mask_, arg_mask)
+
+    # Return a Python bool if appropriate
+    if isinstance(comparison, bool):
+        if builtins is None:
+            builtins = Qube.PREFER_BUILTIN_TYPES
+        if builtins and not np.any(new_mask):
+            return comparison
+
+        comparison = Qube.BOOLEAN_CLASS(comparison)
+
+    comparison._set_mask_(new_mask)
 
     return comparison
 
